@@ -2,6 +2,8 @@ import SkimModel.Driver.C01
 import SkimModel.Driver.C09
 import SkimModel.Driver.C10
 import SkimModel.Driver.C13
+import SkimModel.Driver.C12
+import SkimModel.Driver.C02
 import SkimModel.Driver.C15
 import SkimModel.Driver.C16
 import SkimModel.Driver.C18
@@ -31,6 +33,11 @@ def answer (line : String) : String :=
       | .error e => "error:" ++ e ++ "\terror"
     | "C13" =>
       match C13.handle case impl with
+      | .ok (m, v) => m ++ "\t" ++ v
+      | .error e => "error:" ++ e ++ "\terror"
+    | "C12" => C12.answer case impl
+    | "C02" =>
+      match C02.handle case impl with
       | .ok (m, v) => m ++ "\t" ++ v
       | .error e => "error:" ++ e ++ "\terror"
     | "C15" => C15.answer case impl
